@@ -492,6 +492,10 @@ func (x *Exec) symbolic(st *State, t types.Type, name string) Value {
 	case *types.Pointer:
 		nilT := x.sym.Named(name+".isnil", SBool)
 		obj := x.alloc(st, VLazy{Typ: u.Elem(), Name: name})
+		if x.symObjs == nil {
+			x.symObjs = map[int]bool{}
+		}
+		x.symObjs[obj] = true // the pointee of an input / havocked pointer: never a fresh allocation
 		return VPtr{Nil: nilT, Loc: &Loc{Obj: obj}, Typ: t}
 	case *types.Struct:
 		f := make([]Value, u.NumFields())
